@@ -13,7 +13,7 @@ DET_K = 2
 WALL = {'quick': 150, 'thorough': 2400}
 CHUNK = 2
 CASE_TIMEOUT = 600
-SELFTEST = {'quick': 16, 'thorough': 64}
+SELFTEST = {'quick': 4, 'thorough': 64}
 TOL = 1e-11
 RULE = ('case = (grid sizes in [5..9]^4 with nz >= 7, amplified constants [small R0, iota zero or not, '
         'eps 1e-3..1e-1, random m, n, dt], starting layout, seeded smooth+noise perturbation of f and a '
